@@ -40,6 +40,18 @@ Notes on single mutators
   * `remove_knot`: the pre-state is built by inserting the knot first, so that it is exactly removable (no
     tolerance test on a square root of symbols).
   * tessellation views are compared for 3-D surfaces only (elements.Vertex stores exactly three components).
+  * insert / remove / refine / rotate produce control points that are linear combinations (or carry cos/sin atoms):
+    in sym mode the bounding box of the mutated object is read only when its cache is non-empty (see _inv); an
+    empty cache is recomputed by the getter from the `ctrlpts` view, which is compared.  Native replays read it always.
+  * shape-preserving edits (knot insertion / refinement, evaluator or tessellator swap, re-normalised knot vectors)
+    cannot expose a stale `evalpts` by construction: the stale value equals the fresh one.  The samples are chosen so
+    that every other edit changes every view that depends on it (u = 1/2 is not a knot of the volumes, the degree
+    edit changes C(1/2), ...).
+
+Defects of the pinned tree found with these checks (all replayed natively): NURBS.Curve.reverse keeps the
+ctrlpts/weights caches; deep copies of containers lose their cache keys (KeyError on evalpts); in-place
+translate/rotate/scale of a container and the directional delta_*/sample_size_* setters of Surface/VolumeContainer leave
+the container's evalpts cache stale; SurfaceContainer.tessellate renumbers the vertices of its element surfaces.
 """
 from fractions import Fraction
 import copy
